@@ -6,7 +6,7 @@ from gen import problems
 from props import C02
 
 RULE = ("correspondence: optimize() runs as in C02 plus a second optimize() on the same problem (recorded separately), "
-        "built-in objectives other than UniquifyAllKmers with boosts in {0,0.5,1,2,3}; non-trivial = at least 3 "
+        "built-in objectives other than UniquifyAllKmers with boosts in {0,0.5,1,2,3}, plus a targeted family (a satisfied high-boost EnforceSequence / AvoidChanges objective on a sub-region of either strand against a pattern whose only occurrence straddles its border); non-trivial = at least 3 "
         "assignments; oracle: objective_scores_sum() before / after one and two optimize() calls on the real object")
 TRUSTED = ["harness recorder/replay", "oracle in harness/props/C03.py"]
 ASSUMPTIONS = ["totals are IEEE doubles: a decrease smaller than 1e-9 (relative) is attributed to rounding (partial)",
@@ -19,8 +19,39 @@ def clean(d):
     return d
 
 
+COMP = {"A": "T", "T": "A", "G": "C", "C": "G"}
+
+
+def satisfied_vs_straddling(rng):
+    """a high-boost objective that is already at its best on a sub-region (either strand) and a low-boost objective
+    whose only breach straddles that sub-region's border: optimizing the second must not cost more on the first"""
+    from gen import hard
+    n = rng.randint(20, 40)
+    seq = hard.rand_seq(rng, n)
+    a = rng.randint(4, n - 12)
+    b = rng.randint(a + 6, min(n - 2, a + 14))
+    st = rng.choice([1, -1, -1])
+    sub = seq[a:b]
+    target = sub if st == 1 else "".join(COMP[c] for c in reversed(sub))
+    kind = rng.choice(["sequence_obj", "sequence_obj", "keep_obj"])
+    strong = dict(kind="sequence_obj", sequence=target, location=[a, b, st], boost=rng.choice([3, 5])) if kind == "sequence_obj" \
+        else dict(kind="keep_obj", location=[a, b, rng.choice([1, 0])], boost=rng.choice([3, 5]))
+    # the weak objective: avoid a word that occurs exactly once, across position a (or b)
+    edge = a if rng.random() < 0.6 else b
+    k = rng.choice([4, 5, 6])
+    off = rng.randint(1, k - 1)
+    w0 = max(0, min(n - k, edge - off))
+    word = seq[w0:w0 + k]
+    weak = dict(kind="pattern_obj", pattern=word, boost=rng.choice([0.5, 1]))
+    return dict(sequence=seq, constraints=[], objectives=[strong, weak] if rng.random() < 0.5 else [weak, strong],
+                settings=problems.rand_settings(rng), np_seed=rng.randint(0, 10 ** 6))
+
+
 def gen_cases(rng, n):
     for i in range(n):
+        if i % 5 == 3:
+            yield dict(desc=satisfied_vs_straddling(rng), op="optimize", pre_ops=())
+            continue
         d = clean(problems.rand_solver_problem(rng, soft=C02.BUILTIN_SOFT))
         if not d["objectives"]:
             d["objectives"] = [problems.rand_objective(rng, d["sequence"])]
